@@ -724,6 +724,43 @@ fn lattice_laws(rep: &mut Report, case: u64, rng: &mut Rng) {
     }
 }
 
+/// Key-only and sortedmulti constructors with every key form: what they accept must carry the
+/// key kinds of its output type (wpkh / sh(wpkh) / wsh: compressed only; pk / pkh / sh: compressed
+/// or uncompressed; tr: x-only).
+fn key_constructors(rep: &mut Report, case: u64, world: &World, rng: &mut Rng) {
+    let id = rng.below(world.keys.len());
+    let forms: [(&str, Dk); 3] = [("compressed", world.dk_compressed(id)), ("uncompressed", world.dk_uncompressed(id)), ("x-only", world.dk_xonly(id))];
+    let other = world.dk_compressed((id + 1) % world.keys.len());
+    for (form, k) in forms.iter() {
+        let allowed = |entry: &str| match entry {
+            "Descriptor::new_wpkh" | "Descriptor::new_sh_wpkh" | "Descriptor::new_wsh_sortedmulti" | "Descriptor::new_sh_wsh_sortedmulti" => *form == "compressed",
+            "Descriptor::new_pkh" | "Descriptor::new_pk" | "Descriptor::new_sh_sortedmulti" => *form != "x-only",
+            _ => true,
+        };
+        let mut judge = |entry: &str, r: Result<Option<String>, String>| {
+            rep.eval();
+            match r {
+                Err(m) => rep.violation(case, format!("C12:panic:{}:{}", entry, norm_loc(&last_panic_loc())), format!("{} panicked ({}) with a {} key", entry, m, form)),
+                Ok(None) => rep.count(&format!("rejected:{}", entry)),
+                Ok(Some(d)) => {
+                    rep.count(&format!("accepted:{}", entry));
+                    rep.nontrivial(&format!("{}|{}", entry, d));
+                    if !allowed(entry) {
+                        rep.violation(case, format!("C12:accepts:{}:key-kind", entry), format!("{} accepts a {} key: {}", entry, form, d));
+                    }
+                }
+            }
+        };
+        let kk = k.clone();
+        judge("Descriptor::new_wpkh", guarded(std::panic::AssertUnwindSafe(|| Descriptor::new_wpkh(kk.clone()).ok().map(|d| d.to_string()))));
+        judge("Descriptor::new_sh_wpkh", guarded(std::panic::AssertUnwindSafe(|| Descriptor::new_sh_wpkh(kk.clone()).ok().map(|d| d.to_string()))));
+        judge("Descriptor::new_pkh", guarded(std::panic::AssertUnwindSafe(|| Descriptor::new_pkh(kk.clone()).ok().map(|d| d.to_string()))));
+        judge("Descriptor::new_wsh_sortedmulti", guarded(std::panic::AssertUnwindSafe(|| Descriptor::new_wsh_sortedmulti(miniscript::Threshold::new(1, vec![kk.clone(), other.clone()]).unwrap()).ok().map(|d| d.to_string()))));
+        judge("Descriptor::new_sh_wsh_sortedmulti", guarded(std::panic::AssertUnwindSafe(|| Descriptor::new_sh_wsh_sortedmulti(miniscript::Threshold::new(1, vec![kk.clone(), other.clone()]).unwrap()).ok().map(|d| d.to_string()))));
+        judge("Descriptor::new_sh_sortedmulti", guarded(std::panic::AssertUnwindSafe(|| Descriptor::new_sh_sortedmulti(miniscript::Threshold::new(1, vec![kk.clone(), other.clone()]).unwrap()).ok().map(|d| d.to_string()))));
+    }
+}
+
 pub fn run(cfg: &RunCfg, rep: &mut Report) {
     let world = World::new(cfg.seed);
     let total = cfg.n_cases(8_000, 200_000);
@@ -771,6 +808,9 @@ pub fn run(cfg: &RunCfg, rep: &mut Report) {
             Cx::Tap => switch_case::<Tap>(rep, i, cx, &f, &mut rng),
         }
         lattice_laws(rep, i, &mut rng);
+        if i % 16 == 0 {
+            key_constructors(rep, i, &world, &mut rng);
+        }
         if rep.samples.len() < rep.max_samples && i % 797 == 0 {
             rep.sample(format!("[{}] {} ({})", cx.name(), f.to_string_with(&AbstractNames), how));
         }
